@@ -15,6 +15,8 @@ mod c18;
 
 pub mod c07;
 
+pub mod io;
+
 /// A component in a box, driven through the line protocol.
 pub trait VerifBox {
     /// Execute one operation and return its canonical observation.
@@ -37,6 +39,11 @@ pub fn new_box(area: &str) -> Option<Box<dyn VerifBox>> {
         "c02" => Some(Box::new(crate::crypto::noise::verif_c02::NoiseBox::new())),
         "c16" => Some(Box::new(crate::protocol::libp2p::kademlia::verif_c16::KadBox::new())),
         "c20" => Some(Box::new(crate::protocol::libp2p::bitswap::verif_c20::BitswapBox::new())),
+        "c17" => Some(Box::new(
+            crate::protocol::libp2p::kademlia::verif_c17::StoreBox::new(),
+        )),
+        "c12" => Some(Box::new(crate::protocol::notification::verif_c12::ChanBox::new())),
+        "c11" => Some(Box::new(crate::protocol::notification::verif_c11::NotifBox::new())),
         _ => None,
     }
 }
@@ -57,6 +64,7 @@ pub fn areas() -> Vec<&'static str> {
         "c19",
         "c20",
     ]
+    vec!["c17", "c11", "c12"]
 }
 
 /// Decode a hex string.
